@@ -295,7 +295,10 @@ class Gaussian(Distribution):
 
     def cdf(self, x1):   # no closed form, we rely on scipy with full covariance
         cov = self.compute_cov() # Ensure that we have the full covariance matrix
-        return sps.multivariate_normal.cdf(x1, self.mean, cov)
+        if spa.issparse(cov):
+            cov = cov.toarray()
+        mean = np.repeat(self.mean, self.dim) if len(self.mean) == 1 else self.mean
+        return sps.multivariate_normal.cdf(x1, mean, cov)
 
     def _apply_prec(self, dev):
         """ Precision matrix times dev. Uses sqrtprec (prec = sqrtprec.T@sqrtprec), which is
